@@ -39,7 +39,8 @@ def pick_config(ch: Chooser, spec: G.ModelSpec):
     decl = ch.pick([True, False], "cfg.declaration")
     ida = ch.flag("cfg.ignore_default_attributes")
     mns = model_ns(spec) or "urn:m"
-    ns_map = ch.pick([None, {None: mns}, {"p": mns}, {"u": "urn:unused"}, {"xsi": "http://www.w3.org/2001/XMLSchema-instance", "q": "urn:q"}], "cfg.ns_map")
+    ns_map = ch.pick([None, {None: mns}, {"p": mns}, {"u": "urn:unused"}, {"xsi": "http://www.w3.org/2001/XMLSchema-instance", "q": "urn:q"},
+                      {"": mns}, {None: mns, "x": mns}, {"p": "", "o": "urn:o"}], "cfg.ns_map")
     return dict(indent=indent, xml_declaration=decl, ignore_default_attributes=ida), ns_map
 
 
@@ -106,7 +107,7 @@ NO_NS_QNAMES = ("QName('a')", "QName('b')", "QEnum.B", "QName('_")
 def unrepresentable(spec: G.ModelSpec, exprs, cfg, ns_map) -> str | None:
     """Instances/configurations outside 'values representable in XML 1.0' (each with its reason)."""
     joined = " ".join(exprs)
-    if ns_map and None in ns_map:
+    if ns_map and (None in ns_map or "" in ns_map):
         if any(q in joined for q in NO_NS_QNAMES):
             return "a no-namespace QName value cannot be written while a user default namespace is in scope"
         if "Derived(" in joined and spec.module_ns is None:
